@@ -15,6 +15,8 @@ func init() {
 		if m, err := buildVMModel(p); err == nil {
 			r.Explain("R2 the unwrap idiom tests the value it unwraps: an Elem() taken on the true side of `w.Kind() == Interface` is applied to w itself.")
 			c20UnwrapIdiom(p, r, m)
+			r.Explain("R3 Elem() is applied on the side where the value tested interface/pointer and, where IsNil() of it was tested, not nil.")
+			c20ElemGuards(p, r, m)
 		}
 	})
 }
@@ -231,4 +233,194 @@ func sameCellContent(tt *typeTerms, a, b ssa.Value) bool {
 		}
 	}
 	return true
+}
+
+// c20ElemGuards (R3): reflect.Value.Elem() is applied where the value's kind is known to be interface or pointer, and - when the
+// same value was tested with IsNil() on the way - on the not-nil side. A flipped test makes the plain case fail and lets the
+// wrong kind through to Elem().
+func c20ElemGuards(p *Program, r *Report, m *vmModel) {
+	n := 0
+	for _, fn := range m.fns {
+		if len(fn.Blocks) == 0 || strings.HasPrefix(fn.Name(), "init") {
+			continue
+		}
+		var tt *typeTerms
+		k := 0
+		for _, b := range fn.Blocks {
+			for _, in := range b.Instrs {
+				c, ok := in.(*ssa.Call)
+				if !ok || reflectMethod(c) != "Elem" {
+					continue
+				}
+				recv := c.Call.Args[0]
+				if freshPointer(recv, 0) {
+					continue // reflect.New(t).Elem(), v.Addr().Elem(): a pointer by construction
+				}
+				if tt == nil {
+					tt = newTypeTerms(m, fn, nil)
+				}
+				same := func(v ssa.Value) bool {
+					return v == recv || tt.sameValue(v, recv) || sameCellContent(tt, v, recv) || sameAllocLoad(recv, v) || sameAllocLoad(v, recv)
+				}
+				kindOK, nilBad, sawNil := false, false, false
+				for d := b; d != nil && d.Idom() != nil; d = d.Idom() {
+					id := d.Idom()
+					iff, ok := id.Instrs[len(id.Instrs)-1].(*ssa.If)
+					if !ok {
+						continue
+					}
+					cond, neg := iff.Cond, false
+					if u, ok := cond.(*ssa.UnOp); ok && u.Op == token.NOT {
+						cond, neg = u.X, true
+					}
+					trueSide := edgeOnly(id, 0, d)
+					falseSide := edgeOnly(id, 1, d)
+					if neg {
+						trueSide, falseSide = falseSide, trueSide
+					}
+					switch x := cond.(type) {
+					case *ssa.BinOp:
+						kc, ok := x.X.(*ssa.Call)
+						if ok && reflectMethod(kc) == "Type" && same(kc.Call.Args[0]) && x.Op == token.EQL && trueSide {
+							if u, ok := x.Y.(*ssa.UnOp); ok {
+								if _, isG := u.X.(*ssa.Global); isG {
+									kindOK = true // v.Type() == interfaceType
+								}
+							}
+							continue
+						}
+						if !ok || reflectMethod(kc) != "Kind" || !same(kc.Call.Args[0]) {
+							continue
+						}
+						K, ok := x.Y.(*ssa.Const)
+						if !ok || K.Value == nil || (K.Int64() != 20 && K.Int64() != 22) {
+							continue
+						}
+						if (x.Op == token.EQL && trueSide) || (x.Op == token.NEQ && falseSide) {
+							kindOK = true
+						}
+					case *ssa.Call:
+						if reflectMethod(x) == "IsNil" && same(x.Call.Args[0]) {
+							sawNil = true
+							if trueSide {
+								nilBad = true
+							}
+						}
+					}
+				}
+				// `a == Interface || a == Ptr` enters the block from two tests: accept when every entering edge is such a test
+				if !kindOK {
+					kindOK = elemEnteredFromKindTests(b, same)
+				}
+				if why := elemEnteredFromBadEdge(b, same); why != "" && !nilBad {
+					n++
+					k++
+					r.Fail("C20.R3", fmt.Sprintf("%s|Elem #%d on the tested side", funcName(fn), k), p.Pos(c.Pos()), "Elem() can be reached on "+why+": the test that guards the unwrapping or dereference is flipped")
+					continue
+				}
+				if !kindOK && !sawNil {
+					continue // no test at all on this path: typed knowledge (a pointer by type, a helper's contract) - not this rule's business
+				}
+				n++
+				k++
+				bad := ""
+				if nilBad {
+					bad = "Elem() is applied on the side where IsNil() of the same value is true"
+				} else if !kindOK {
+					bad = "Elem() is applied on the side where the value's kind was tested NOT to be interface/pointer"
+				}
+				r.Check(bad == "", "C20.R3", fmt.Sprintf("%s|Elem #%d on the tested side", funcName(fn), k), p.Pos(c.Pos()), "kind is interface or pointer, and not nil where that was tested", bad+": the test that guards the unwrapping or dereference is flipped")
+			}
+		}
+	}
+	r.Floor("C20.R3", n, 40)
+}
+
+func freshPointer(v ssa.Value, depth int) bool {
+	if depth > 4 {
+		return false
+	}
+	switch x := v.(type) {
+	case *ssa.Call:
+		if o := calleeObj(x); o != nil && o.Pkg() != nil && o.Pkg().Path() == "reflect" && (o.Name() == "New" || o.Name() == "PtrTo") {
+			return true
+		}
+		if reflectMethod(x) == "Addr" {
+			return true
+		}
+	case *ssa.Extract:
+		return true // results of helper calls (makeValue ...): typed by contract
+	case *ssa.Phi:
+		for _, e := range x.Edges {
+			if !freshPointer(e, depth+1) {
+				return false
+			}
+		}
+		return true
+	}
+	return false
+}
+
+// elemEnteredFromKindTests: every edge entering b (through empty forwarding blocks) is the true edge of a Kind()==Interface/Ptr test of the value.
+func elemEnteredFromKindTests(b *ssa.BasicBlock, same func(ssa.Value) bool) bool {
+	if len(b.Preds) < 2 {
+		return false
+	}
+	for _, pr := range b.Preds {
+		iff, ok := pr.Instrs[len(pr.Instrs)-1].(*ssa.If)
+		if !ok || pr.Succs[0] != b {
+			return false
+		}
+		bo, ok := iff.Cond.(*ssa.BinOp)
+		if !ok || bo.Op != token.EQL {
+			return false
+		}
+		kc, ok := bo.X.(*ssa.Call)
+		if !ok || reflectMethod(kc) != "Kind" || !same(kc.Call.Args[0]) {
+			return false
+		}
+		K, ok := bo.Y.(*ssa.Const)
+		if !ok || (K.Int64() != 20 && K.Int64() != 22) {
+			return false
+		}
+	}
+	return true
+}
+
+// elemEnteredFromBadEdge: some edge entering b is the true edge of `Kind() != Ptr/Interface` or of IsNil() of the value.
+func elemEnteredFromBadEdge(b *ssa.BasicBlock, same func(ssa.Value) bool) string {
+	for _, pr := range b.Preds {
+		iff, ok := pr.Instrs[len(pr.Instrs)-1].(*ssa.If)
+		if !ok {
+			continue
+		}
+		cond, neg := iff.Cond, false
+		if u, ok := cond.(*ssa.UnOp); ok && u.Op == token.NOT {
+			cond, neg = u.X, true
+		}
+		onTrue := pr.Succs[0] == b && pr.Succs[1] != b
+		onFalse := pr.Succs[1] == b && pr.Succs[0] != b
+		if neg {
+			onTrue, onFalse = onFalse, onTrue
+		}
+		switch x := cond.(type) {
+		case *ssa.BinOp:
+			kc, ok := x.X.(*ssa.Call)
+			if !ok || reflectMethod(kc) != "Kind" || !same(kc.Call.Args[0]) {
+				continue
+			}
+			K, ok := x.Y.(*ssa.Const)
+			if !ok || K.Value == nil || K.Int64() != 22 {
+				continue
+			}
+			if x.Op == token.NEQ && onTrue {
+				return "the side where the kind tested not to be a pointer"
+			}
+		case *ssa.Call:
+			if reflectMethod(x) == "IsNil" && same(x.Call.Args[0]) && onTrue {
+				return "the side where IsNil() of the value is true"
+			}
+		}
+	}
+	return ""
 }
